@@ -258,7 +258,12 @@ class Episode(object):
                 pid = kids[op['child'] % len(kids)]
             how = op.get('how', 'exit')
             inflight = self.busy()
-            if how == 'exit':
+            if how == 'leader':
+                # (not a death)
+                k.external_leader_exit(pid)
+                self.fired['leader_exit'] += 1
+                return
+            elif how == 'exit':
                 k.external_exit(pid, op.get('arg', 0))
             elif how == 'kill':
                 k.external_signal(pid, 9)
